@@ -510,11 +510,13 @@ def run_formula(case, system, meta, groups, nb, k):
             "obs": {"cmp": ncmp, "disc": nd, "skipped": skipped, "undeclared": undeclared, "gauge": gauge}}
 
 
-def calc_variants(name, cls):
+def calc_variants(name, cls, emin=-1.0, emax=1.5):
     pars = set()
     for c in cls.__mro__:
         pars |= _params(c)
-    kw0 = dict(Efermi=np.array([-0.4, 0.3, 1.1]), omega=np.array([0.2, 0.9, 2.3]), kBT=0.05, smr_fixed_width=0.12)
+    w = emax - emin
+    kw0 = dict(Efermi=emin + w * np.array([-0.07, 0.31, 0.52, 1.09]) + 0.0123, omega=w * np.array([0.11, 0.47, 0.93]) + 0.0101,
+               kBT=0.05, smr_fixed_width=0.12)
     out = [("Lorentzian", dict(kw0))]
     out.append(("Gaussian", dict(kw0, smr_type="Gaussian")))
     if "sc_eta" in pars:
@@ -567,7 +569,8 @@ def run_dyncalc(case, system, meta, groups, nb, k):
     kk = np.array(k, dtype=float)
     nd = ncmp = 0
     skipped, gauge = [], []
-    for label, kw in calc_variants(name, cls):
+    E0 = dcls(system, grid=grid, k_list=np.array([kk])).E_K[0]
+    for label, kw in calc_variants(name, cls, float(E0.min()), float(E0.max())):
         try:
             calc = cls(**kw)
         except Exception as e:
